@@ -58,6 +58,8 @@ def iter_state_machine(run, ctx, fn_suffix, label):
                      "search is reached without %s <= len(%s) being established (iterating past the end / Input::span panic)" % (POS, TEXT))
         else:
             v = S.ret_value(p)
+            if v is not None and v != "None" and not v.endswith(".next()"):
+                viol("yield-without-search", w, "yields %s on a path that never searched" % v)
             if v == "None" and not any(ev.kind == "arm" for ev in p.events):
                 pf = S.PathFacts(p.events)
                 n_ob += 1
@@ -396,11 +398,11 @@ def split_rule(run, ctx):
     saw = {"none-rem": 0, "none-done": 0, "ok": 0, "err": 0}
     for p in paths:
         arms = [ev for ev in p.events if ev.kind == "arm"]
-        if not arms:
+        if not arms or not arms[0].a.endswith(".next()"):
+            if S.ret_value(p) is not None:
+                run.violation(fam, label, "bypass", w, "Split::next has a path that yields %s without consulting the match iterator: pieces are exactly the text between consecutive find_iter matches, so every call must be answered from matches.next()" % S.ret_value(p))
             continue
         a0 = arms[0]
-        if not (a0.a.endswith(".next()")):
-            continue
         ITER = a0.a[:-len(".next()")]
         v = S.ret_value(p)
         n += 1
@@ -712,3 +714,148 @@ def replacer_rule(run, ctx):
         n += okk
     run.floor(fam, label, "src/replacer.rs", stringlike, 5, "string-like Replacer impls")
     run.ok(fam, label, "src/replacer.rs", n, "%d Replacer impls; %d string-like via helper contains('$')" % (len(impls), stringlike))
+
+
+def own_matches(run, ctx):
+    """The iterator state (Matches.last_end / last_match) is written only by the two iterator bodies."""
+    fam, label = "OWN", "Matches-fields"
+    adt = [p for p in ctx.facts.adts if strip_generics(p) == "Matches"]
+    if len(adt) != 1:
+        run.violation(fam, label, "anchor-missing/Matches", "src/lib.rs", "anchor-missing: struct Matches")
+        return
+    A = adt[0]
+    allowed = {"<Matches as Iterator>::next", "<CaptureMatches as Iterator>::next"}
+    n = 0
+    for path, body in ctx.cg.bodies.items():
+        sp = strip_generics(path)
+        for b in body.blocks:
+            for st in b["stmts"]:
+                if st["k"] != "Assign":
+                    continue
+                places = [st["place"]]
+                if st["rv"]["k"] == "Ref" and st["rv"].get("mut"):
+                    places.append(st["rv"]["place"])
+                for pl in places:
+                    fl = [x for x in (pl.get("p") or []) if x["k"] == "Field" and x.get("adt") == A and x.get("name") in ("last_end", "last_match")]
+                    if fl:
+                        n += 1
+                        if sp not in allowed:
+                            sp_ = st["span"]
+                            run.violation(fam, label, "%s/%s" % (sp, fl[0]["name"]), "%s:%d" % (sp_["file"], sp_["line"]),
+                                          "Matches.%s is written in %s: the iteration state may only be advanced by the iterator itself" % (fl[0]["name"], sp))
+    # constructed only in find_iter with (0, None)
+    ctors = []
+    for path, fn in ctx.facts.hir.items():
+        for nd in H.walk(fn["body"]):
+            if nd.get("k") == "Struct" and strip_generics(nd.get("adt", "")) == "Matches":
+                ctors.append((strip_generics(path), nd))
+    for sp, nd in ctors:
+        f = {x["name"]: H.canon(x["e"]) for x in nd["fields"]}
+        if sp != "Regex::find_iter" or f.get("last_end") != "0" or f.get("last_match") not in ("None", "Option::None"):
+            run.violation(fam, label, "ctor/" + sp, H.where(nd), "Matches must be created only by find_iter, starting at position 0 with no previous match (found %s in %s)" % (f, sp))
+    run.floor(fam, label, "src/lib.rs", n, 6, "writes to Matches.last_end / last_match")
+    run.ok(fam, label, "src/lib.rs", n + len(ctors), "%d writes to the iteration state, all in the two iterator bodies; created by find_iter at (0, None)" % n)
+
+
+def own_split(run, ctx):
+    """Split.next_start is written only by Split::next and SplitN::next; Split is created by split() at 0."""
+    fam, label = "OWN", "Split-fields"
+    adt = [p for p in ctx.facts.adts if strip_generics(p) == "Split"]
+    if len(adt) != 1:
+        run.violation(fam, label, "anchor-missing/Split", "src/lib.rs", "anchor-missing: struct Split")
+        return
+    A = adt[0]
+    allowed = {"<Split as Iterator>::next", "<SplitN as Iterator>::next"}
+    n = 0
+    for path, body in ctx.cg.bodies.items():
+        sp = strip_generics(path)
+        for b in body.blocks:
+            for st in b["stmts"]:
+                if st["k"] != "Assign":
+                    continue
+                places = [st["place"]]
+                if st["rv"]["k"] == "Ref" and st["rv"].get("mut"):
+                    places.append(st["rv"]["place"])
+                for pl in places:
+                    fl = [x for x in (pl.get("p") or []) if x["k"] == "Field" and x.get("adt") == A and x.get("name") in ("next_start", "target")]
+                    if fl:
+                        n += 1
+                        if sp not in allowed:
+                            sp_ = st["span"]
+                            run.violation(fam, label, "%s/%s" % (sp, fl[0]["name"]), "%s:%d" % (sp_["file"], sp_["line"]),
+                                          "Split.%s is written in %s" % (fl[0]["name"], sp))
+    ctors = []
+    for path, fn in ctx.facts.hir.items():
+        for nd in H.walk(fn["body"]):
+            if nd.get("k") == "Struct" and strip_generics(nd.get("adt", "")) == "Split":
+                ctors.append((strip_generics(path), nd, fn))
+    for sp, nd, fn in ctors:
+        f = {x["name"]: H.canon(x["e"]) for x in nd["fields"]}
+        T = [p.get("name") for p in fn["params"]][-1]
+        if sp != "Regex::split" or f.get("next_start") != "0" or f.get("target") != T or f.get("matches") != "self.find_iter(%s)" % T:
+            run.violation(fam, label, "ctor/" + sp, H.where(nd), "Split must be created by Regex::split as {matches: find_iter(target), next_start: 0, target} (found %s in %s)" % (f, sp))
+    sn = [nd for path, fn in ctx.facts.hir.items() for nd in H.walk(fn["body"]) if nd.get("k") == "Struct" and strip_generics(nd.get("adt", "")) == "SplitN"]
+    for nd in sn:
+        f = {x["name"]: H.canon(x["e"]) for x in nd["fields"]}
+        if not H.pat_match("self.split({t})", f.get("splits", "")) or f.get("limit") != "limit":
+            run.violation(fam, label, "ctor/SplitN", H.where(nd), "SplitN must be {splits: self.split(target), limit} (found %s)" % f)
+    run.floor(fam, label, "src/lib.rs", n, 3, "writes to Split.next_start")
+    run.ok(fam, label, "src/lib.rs", n + len(ctors) + len(sn), "next_start written only by the two split iterators; constructors start at 0 over find_iter(target)")
+
+
+def entry_no_bypass(run, ctx):
+    """Every completed path of the dispatching entry points goes through the engine dispatch."""
+    fam, label = "DISPATCH", "no-bypass"
+    n = 0
+    for sp in ("Regex::is_match", "Regex::find_from_pos_with_option_flags", "Regex::captures_from_pos_with_option_flags"):
+        fs = S.find_fn(ctx, sp)
+        if not fs:
+            if sp.endswith("captures_from_pos_with_option_flags"):
+                fs = S.find_fn(ctx, "Regex::captures_from_pos")
+            if not fs:
+                run.violation(fam, label, "anchor-missing/" + sp, "src/lib.rs", "anchor-missing: %s" % sp)
+                continue
+        fn = fs[0]
+        for p in S.paths_of(fn["body"]):
+            v = S.ret_value(p)
+            if v is None:
+                continue
+            n += 1
+            arms = [ev for ev in p.events if ev.kind == "arm" and ev.a == "self.inner" and ev.b.startswith("RegexImpl::")]
+            if not arms:
+                run.violation(fam, label, sp, H.where(fn), "%s has a path answering %s without dispatching on the compiled regex (shortcut answers make the entry points disagree)" % (sp, v[:60]))
+    fn = S.get_fn(run, ctx, "Regex::new_options", fam, label)
+    if fn is not None:
+        for p in S.paths_of(fn["body"]):
+            v = S.ret_value(p)
+            if v is None or not v.startswith("Ok("):
+                continue
+            n += 1
+            calls = [ev.b or "" for ev in p.events if ev.kind == "call"]
+            need = [("parse", lambda c: "Parser::parse" in c), ("wrap_tree", lambda c: c.endswith("wrap_tree")), ("analyze", lambda c: c.endswith("analyze::analyze")),
+                    ("compile", lambda c: c.endswith("compile_inner") or c.endswith("compile_with_options") or c.endswith("compile::compile"))]
+            for nm, pred in need:
+                if not any(pred(c) for c in calls):
+                    run.violation(fam, label, "new_options/" + nm, H.where(fn), "Regex::new_options has a successful path that skips %s" % nm)
+    run.floor(fam, label, "src/lib.rs", n, 8, "completed paths of the dispatching entry points")
+    run.ok(fam, label, "src/lib.rs", n, "every answer of is_match / find_from_pos* / captures_from_pos* comes from the engine dispatch; construction always parses, wraps, analyses, compiles")
+
+
+def iterator_impls(run, ctx):
+    """Public iterator types define only `next` (and `size_hint`): an overridden nth/count/last/fold could
+    disagree with repeated next()."""
+    fam, label = "OWN", "iterator-overrides"
+    n = 0
+    for im in ctx.facts.impls:
+        if not im.get("trait", "").endswith("iter::Iterator") and not im.get("trait", "").endswith("::Iterator"):
+            continue
+        names = [it["name"] for it in im["items"] if it["name"] not in ("Item",)]
+        n += 1
+        extra = [x for x in names if x not in ("next", "size_hint")]
+        if extra:
+            run.violation(fam, label, "%s/%s" % (im["self_ty"], ",".join(extra)), "%s:%d" % (im["span"]["file"], im["span"]["line"]),
+                          "impl Iterator for %s overrides %s: everything but next() must follow from next() (an overridden method can disagree with repeated next())" % (im["self_ty"], extra))
+        if im["self_ty"].startswith("SubCaptureMatches") or im["self_ty"].startswith("SplitN"):
+            pass
+    run.floor(fam, label, "src/lib.rs", n, 6, "Iterator impls")
+    run.ok(fam, label, "src/lib.rs", n, "%d Iterator impls define only next (+ size_hint)" % n)
